@@ -60,7 +60,11 @@ claim("C03",
       "C03_canonical_rewritten: in either style the bytes written ARE the UTF-8 encoding of the canonical file with the "
       "same layout, names, arguments and other items whose statements without a reference now carry one (`[ref: N] ` "
       "at the start of the message; `ref = N` as first key-value) -- an equation between texts, via decode_is_encode "
-      "and weave_items. "
+      "and weave_items. C03_canonical_rewritten_text: that file is valid UTF-8 again and decodes to the rewritten text. "
+      "C03_every_file_text (Proofs/ValidUtf8.v): for EVERY readable file, whatever it contains, the bytes written are "
+      "the UTF-8 encoding of the old text with one reference inserted at the CHARACTER position of each entry lacking "
+      "one (tweave), and decode to exactly that text -- entry offsets are character boundaries (entries_bnd), the "
+      "strict decoder is the inverse of the encoder on scalar values (decode_iff), insertions are ASCII. "
       "Tie: real binary vs extracted model on the "
       "repository's Rust corpus, generated statements and a malformed/mutated stream; the predicate (token deletion "
       "restores the original; tokens only at statements lacking a reference) is evaluated directly on the bytes.",
@@ -134,7 +138,10 @@ claim("C05",
       "(the number an edit run prints is the number of IDs it wrote); C05_canonical_check (composition with the parser "
       "specification theorem and C17: on a tree of canonical files --check reports exactly the line/column `expected` "
       "computes from each file's TEXT for the statements lacking a reference, and exits non-zero iff there is one; no "
-      "panic hypothesis, no parse tree). The same filter selects what check reports "
+      "panic hypothesis, no parse tree); C05_reported_place_is_insertion_place (for EVERY text and every entry the finder "
+      "returns, the line/column it carries -- what --check prints -- are Text.line_col of its byte offset e_pos, where an "
+      "edit run inserts: also for the one offset that is not a node position, directly after the bracket). "
+      "The same filter selects what check reports "
       "and what edit rewrites (C03/C08). Tie: check and edit runs of the real binary on the same trees, the "
       "reported line/column converted to byte offsets independently (characters, CRLF, lone CR, tabs, multi-byte) "
       "and compared with the insertion offsets of the edit diff; both runs compared with the model.",
